@@ -8,7 +8,6 @@ package mcp
 
 import (
 	"context"
-	"encoding/json"
 	"net/http"
 	"strings"
 
@@ -56,9 +55,13 @@ func (r *jsonResponder) respond(ctx context.Context, w http.ResponseWriter, req 
 		return nil
 	}
 
-	// Set status code and encode response
+	// Encode the response, then set the status code and write it
+	data, err := marshalJSONRPCMessage(resp)
+	if err != nil {
+		return err
+	}
 	w.WriteHeader(http.StatusOK)
-	if err := json.NewEncoder(w).Encode(resp); err != nil {
+	if _, err := w.Write(append(data, '\n')); err != nil {
 		return err
 	}
 
